@@ -425,6 +425,7 @@ def near_integer(r):
 
 BUILTIN_ARGS = {
     'round': lambda r: r.choice([r.uniform(-50, 50), r.randint(-9, 9) + 0.25,
+                                 r.randint(-9, 8) + 0.5, r.randint(-9, 8) + 0.5,
                                  r.randint(-9, 9) + 0.75, r.randint(-5, 5)]),
     # (also a hair's breadth away from an integer, and integers too large for
     # a float to hold exactly)
@@ -480,6 +481,12 @@ def part_builtins(ctx):
         if name == 'round':
             ok = isinstance(g, int) and not isinstance(g, bool) \
                 and abs(g - x) <= 0.5
+            if ok and abs(x - math.trunc(x)) == 0.5:
+                # an exact tie: the manual's examples (1.5 -> 2, -1.5 -> -2)
+                # allow rounding to even and rounding away from zero, nothing
+                # else
+                away = math.trunc(x) + (1 if x > 0 else -1)
+                ok = g in (round(x), away)
         elif name == 'cycle':
             ok = 0 <= g < 360 and close((g - x) % 360, 0, abs_=1e-6) or \
                 close((g - x) % 360, 360, abs_=1e-6)
